@@ -9,7 +9,11 @@
 //	           configured mode and both roles, local.NewEndpoint is created on a
 //	           temporary root, scanned once, and asked to Stage a non-empty
 //	           request and to perform a non-empty Transition; the harness records
-//	           whether each call was refused and whether the root is unchanged.
+//	           whether each call was refused and whether the root and the
+//	           endpoint's staging store are unchanged. Request shapes 2 and 3 ask
+//	           only for content whose digest already exists in the endpoint's own
+//	           root (a copy/rename pushed back), so that nothing would have to be
+//	           transmitted; a read-only endpoint must refuse those as well.
 package main
 
 import (
@@ -25,6 +29,7 @@ import (
 	"strings"
 	"time"
 
+	"github.com/mutagen-io/mutagen/pkg/filesystem"
 	"github.com/mutagen-io/mutagen/pkg/synchronization"
 	"github.com/mutagen-io/mutagen/pkg/synchronization/core"
 	"github.com/mutagen-io/mutagen/pkg/synchronization/endpoint/local"
@@ -37,7 +42,7 @@ import (
 type GuardCase struct {
 	Alpha bool `json:"alpha"`
 	Mode  int  `json:"mode"` // 0 = left unset in the configuration, 1..4 as in core.SynchronizationMode
-	Req   int  `json:"req"`  // request variant
+	Req   int  `json:"req"`  // request variant: 0,1 = new content; 2,3 = content already present in the root
 }
 
 // Case is the replay form of one case: a reconcile case, or (Guard != nil) an
@@ -141,6 +146,11 @@ func runGuard(g GuardCase, scratch string) (string, bool, []string) {
 		panic(err)
 	}
 	defer os.RemoveAll(base)
+	// every observation gets its own Mutagen data directory, so that the
+	// staging store seen below belongs to this endpoint alone
+	dataDir := filepath.Join(base, "data")
+	os.Setenv("MUTAGEN_DATA_DIRECTORY", dataDir)
+	stagingDir := filepath.Join(dataDir, filesystem.MutagenSynchronizationStagingDirectoryName)
 	root := filepath.Join(base, "root")
 	if err := os.MkdirAll(filepath.Join(root, "sub"), 0o755); err != nil {
 		panic(err)
@@ -163,26 +173,45 @@ func runGuard(g GuardCase, scratch string) (string, bool, []string) {
 	}
 	defer ep.Shutdown()
 	ctx := context.Background()
-	if _, err, _ := ep.Scan(ctx, nil, true); err != nil {
+	snapshot, err, _ := ep.Scan(ctx, nil, true)
+	if err != nil {
 		panic(fmt.Errorf("Scan: %w", err))
 	}
+	// digests of existing content as the endpoint itself computed them
+	keepEntry := snapshot.Content.GetContents()["keep"]
+	innerEntry := snapshot.Content.GetContents()["sub"].GetContents()["inner"]
+	if keepEntry == nil || innerEntry == nil || len(keepEntry.Digest) == 0 || len(innerEntry.Digest) == 0 {
+		panic("scan did not report the prepared files")
+	}
 	before := snapshotRoot(root)
+	stagingBefore := snapshotRoot(stagingDir)
 
 	// A non-empty staging request.
 	content := []byte("staged content")
 	digest := sha1.Sum(content)
 	paths := []string{"new-file"}
 	digests := [][]byte{digest[:]}
-	if g.Req == 1 {
+	switch g.Req {
+	case 1:
 		paths = []string{"sub/new-file", "other"}
 		digests = [][]byte{digest[:], digest[:]}
+	case 2:
+		// a copy of an existing file: satisfiable from the root itself
+		paths = []string{"copy-of-keep"}
+		digests = [][]byte{keepEntry.Digest}
+	case 3:
+		// several copies/renames, all satisfiable from the root itself
+		paths = []string{"renamed-inner", "sub/copy-of-keep", "sub/inner-again"}
+		digests = [][]byte{innerEntry.Digest, keepEntry.Digest, innerEntry.Digest}
 	}
 	_, _, _, stageErr := ep.Stage(paths, digests)
+	// (Transition finalizes the stager, which wipes the store: look now)
+	stagingAfterStage := snapshotRoot(stagingDir)
 
 	// A non-empty transition: create a directory (needs no staged content),
 	// or delete an existing file exactly as scanned.
 	var transitions []*core.Change
-	if g.Req == 0 {
+	if g.Req == 0 || g.Req == 2 {
 		transitions = []*core.Change{{Path: "new-dir", New: &core.Entry{Kind: core.EntryKind_Directory}}}
 	} else {
 		d := sha1.Sum([]byte("original"))
@@ -193,14 +222,19 @@ func runGuard(g GuardCase, scratch string) (string, bool, []string) {
 	}
 	_, _, _, transitionErr := ep.Transition(ctx, transitions)
 	after := snapshotRoot(root)
+	stagingAfter := snapshotRoot(stagingDir)
 
 	mode := "None"
 	if g.Mode != 0 {
 		mode = "(Some " + modeNames[g.Mode] + ")"
 	}
-	coq := fmt.Sprintf("(GC (mkobs %s %s %s %s %s))", coqBool(g.Alpha), mode,
-		coqBool(stageErr != nil), coqBool(transitionErr != nil), coqBool(before == after))
-	tags := []string{"guard", fmt.Sprintf("guard:alpha=%v", g.Alpha), fmt.Sprintf("guard:mode=%d", g.Mode)}
+	coq := fmt.Sprintf("(GC (mkobs %s %s %s %s %s %s))", coqBool(g.Alpha), mode,
+		coqBool(stageErr != nil), coqBool(transitionErr != nil), coqBool(before == after),
+		coqBool(stagingBefore == stagingAfterStage && stagingBefore == stagingAfter))
+	tags := []string{"guard", fmt.Sprintf("guard:alpha=%v", g.Alpha), fmt.Sprintf("guard:mode=%d", g.Mode), fmt.Sprintf("guard:req=%d", g.Req)}
+	if stagingBefore != stagingAfterStage || stagingBefore != stagingAfter {
+		tags = append(tags, "guard:staging-store-changed")
+	}
 	if stageErr != nil {
 		tags = append(tags, "guard:stage-refused")
 	}
@@ -300,12 +334,12 @@ func main() {
 	if *prop == "c02" {
 		for mode := 0; mode <= 4; mode++ {
 			for _, alpha := range []bool{true, false} {
-				for req := 0; req < 2; req++ {
+				for req := 0; req < 4; req++ {
 					add(Case{Guard: &GuardCase{Alpha: alpha, Mode: mode, Req: req}}, "exhaustive")
 				}
 			}
 		}
-		w.Extra["exhaustive"] = "endpoint guard: all 5 configured modes (unset, 1..4) x alpha/beta x 2 request shapes on real local endpoints"
+		w.Extra["exhaustive"] = "endpoint guard: all 5 configured modes (unset, 1..4) x alpha/beta x 4 request shapes (2 asking for new content, 2 asking only for content already present in the endpoint's own root) on real local endpoints; root and staging store compared before/after"
 	}
 
 	r := cfg.Rand
